@@ -1501,6 +1501,114 @@ def product_spec(rng, tkind, plain, pref, embed, attr_name=None):
     return spec
 
 
+BASIC_FAULTS = {"absent": ("absent", "absent"), "wrong-under-plain-name": ("wrong", "absent"),
+                "wrong-under-plain-name-right-under-prefixed": ("wrong", "right"),
+                "wrong-under-prefixed-name-only": ("absent", "wrong"), "None-only": ("None", "absent"),
+                "None-and-wrong-under-prefixed-name": ("None", "wrong")}
+EXTRA_FAULTS = ["bound-method", "property", "Optional", "union", "literal", "alias-of-another-class", "component-of-another-class"]
+CTOR_FAULTS = ["private-parameter", "component-declared-later"]
+SIBLINGS = ["good-before", "good-after", "good-both"]
+
+
+def fault_specs(rng, reps=1):
+    """A request that cannot be served, placed deliberately:
+      every failure kind the generator knows (absent; wrong type under the plain name, also with a right
+      object under '<target>_<name>'; wrong type under the prefixed name only; None; None + wrong prefixed;
+      a bound method / a property under the name; Optional[...], X | None, a literal as annotation; an alias
+      of another class; a component of another class under the name; for constructors a private parameter and
+      a component declared later)
+      x where it sits {attribute of a component, constructor parameter, attribute of an AUTONOMOUS MODE}
+      x the driver station {FMS not attached, FMS attached}
+      x {the faulty target alone, among well-formed components / modes before and/or after it},
+    plus the fault-free robot of the same shape in both environments (it must start)."""
+    out = []
+    n = 0
+    for _ in range(reps):
+        for tkind in ("attr", "ctor", "mode"):
+            faults = ["none"] + list(BASIC_FAULTS) + EXTRA_FAULTS + (CTOR_FAULTS if tkind == "ctor" else [])
+            for fault in faults:
+                for fms in (False, True):
+                    for sib in ("alone", SIBLINGS[n % 3]):
+                        n += 1
+                        sp = fault_spec(rng, tkind, fault, sib)
+                        sp["env"] = {"fms": fms, "enabled": fms and rng.random() < 0.5}
+                        sp["tag"] = "%s|%s|%s" % ({"attr": "component-attribute", "ctor": "constructor-parameter",
+                                                   "mode": "mode-attribute"}[tkind], fault, "alone" if sib == "alone" else "with-good-siblings")
+                        nf = len(analyse(sp, INH_STATIC)["faults"])
+                        if (nf == 0) != (fault == "none"):
+                            raise AssertionError("fault family: %s has %d faults" % (sp["tag"], nf))
+                        out.append(sp)
+    return out
+
+
+def fault_spec(rng, tkind, fault, siblings):
+    plain, pref = BASIC_FAULTS.get(fault, ("right", "absent"))
+    spec = product_spec(rng, tkind, plain, pref, embed=False)
+    if tkind == "mode":
+        holder, key, tname = spec["modes"][-1], "hints", spec["modes"][-1]["name"]
+    else:
+        holder, key = spec["comps"][-1], ("init" if tkind == "ctor" else "hints")
+        tname = [h[0] for h in spec["rhints"] if h[2] == ["comp", len(spec["comps"]) - 1]][0]
+    ent = holder[key][0]
+    attr = ent[0]
+
+    def robot_attr(name):
+        return [x for x in spec["rattrs"] if x[0] == name][0]
+
+    def new_comp(hints):
+        spec["comps"].append({"base": False, "hints": hints, "init": None, "init_level": 1, "presets": [],
+                              "setup": rng.random() < 0.5, "falsy": False})
+        return len(spec["comps"]) - 1
+    if fault == "bound-method":          # the robot's own method, or a bound method of another object, under the name
+        e = robot_attr(attr)
+        e[2], e[3] = "method", None
+    elif fault == "property":
+        e = robot_attr(attr)
+        e[1], e[2] = "class", "property"
+    elif fault in ("Optional", "union", "literal"):
+        ent[-1] = {"Optional": ["optional", 20], "union": ["union", 20], "literal": ["lit"]}[fault]
+    elif fault == "alias-of-another-class":
+        ent[-1] = ["alias", rng.choice(["list[int]", "dict[str,int]"])]
+    elif fault == "private-parameter":
+        ent[0] = "_p"
+        holder["presets"] = []
+    elif fault in ("component-of-another-class", "component-declared-later"):
+        k = new_comp([])
+        ent[0] = "oc"
+        if tkind != "mode":
+            holder["presets"] = []
+        if fault == "component-of-another-class":
+            ent[-1] = ["cls", 20]
+            spec["rhints"].insert(0, ["oc", "class", ["comp", k]])
+        else:
+            ent[-1] = ["cls", comp_cid(k)]
+            spec["rhints"].append(["oc", "class", ["comp", k]])
+    if siblings != "alone":
+        oid = len(spec["pool"]) + 1
+        spec["pool"].append([oid, "int", 0])
+        spec["rattrs"].append(["sib", rng.choice(["class", "create"]), "plain", oid])
+        spec["rattrs"].sort(key=lambda x: x[0])
+        good_hint = ["sib", ["cls", rng.choice([0, 1])]]
+
+        def good_mode(nm):
+            return {"name": nm, "hints": [list(good_hint)], "presets": [], "setup": rng.random() < 0.5}
+        if tkind == "mode":
+            if siblings in ("good-before", "good-both"):
+                spec["modes"].insert(0, good_mode("g1"))
+            if siblings in ("good-after", "good-both"):
+                spec["modes"].append(good_mode("g2"))
+            if rng.random() < 0.5:
+                spec["rhints"].append(["gc", "class", ["comp", new_comp([["sib", 1, good_hint[1]]])]])
+        else:
+            pos = [i for i, h in enumerate(spec["rhints"]) if h[0] == tname][0]
+            if siblings in ("good-after", "good-both"):
+                spec["rhints"].insert(pos + 1, ["gb", "class", ["comp", new_comp([["sib", 1, good_hint[1]]])]])
+            if siblings in ("good-before", "good-both"):
+                spec["rhints"].insert(pos, ["ga", "class", ["comp", new_comp([["sib", 1, good_hint[1]]])]])
+            spec["modes"].append(good_mode("g1"))
+    return spec
+
+
 def load_corpus():
     d = os.path.join(CORPUS, "C08")
     out = []
@@ -1588,7 +1696,8 @@ def violation(spec, res, v):
 
 def describe(spec):
     comps = ["%s:C%d" % (n, f[1]) for n, _, f in spec["rhints"] if f[0] == "comp"]
-    return "components %s, %d robot attrs, %d modes, path=%s" % (",".join(comps), len(spec["rattrs"]), len(spec["modes"]), spec["path"])
+    return "components %s, %d robot attrs, %d modes, path=%s, driver station: %s" % (
+        ",".join(comps), len(spec["rattrs"]), len(spec["modes"]), spec["path"], env_text(spec_env(spec)))
 
 
 def try_oracle(spec):
@@ -1655,6 +1764,16 @@ def shrink(spec, fp):
         if sp["path"] != "create":
             c = copy.deepcopy(sp)
             c["path"] = "create"
+            yield c
+        env = spec_env(sp)          # last: the plainest driver station the failure survives
+        for key in ("enabled", "fms"):
+            if env[key]:
+                c = copy.deepcopy(sp)
+                c["env"] = dict(env, **{key: False})
+                yield c
+        if "tag" in sp:
+            c = copy.deepcopy(sp)
+            del c["tag"]
             yield c
     progress = True
     rounds = 0
